@@ -21,9 +21,9 @@ META = {
         "R-DE (vf/ref/germany.py) encodes the Bundesbank methods from the published rules; DONT_CARE on sub-rules not reconstructed with certainty (13/63/76 shifted sub-account forms, 23 remainder 1 with digit 0, 68 below six digits, 76 remainder 10 with digit 0)",
         "anchors: the 70 literals of tests/test_checksum.py must agree with R-DE or the check is inconclusive",
     ],
-    "min_distinct": {"quick": 30000, "thorough": 1000000},
+    "min_distinct": {"quick": 100000, "thorough": 10000000},
 }
-SIZES = {"quick": dict(direct=450, per_bank=3, unlisted=150), "thorough": dict(direct=25000, per_bank=40, unlisted=5000)}
+SIZES = {"quick": dict(direct=1200, per_bank=3, unlisted=300), "thorough": dict(direct=80000, per_bank=120, unlisted=20000)}
 BOUNDARY = ["0000000000", "0000000001", "0000005999", "0000006000", "0000059999", "0000060000", "0000060001",
             "0395999999", "0396000000", "0396000001", "0428480235", "0499999999", "0500000000", "0400000000", "0399999999",
             "9999999999", "0999999999", "0099999999", "1000000000", "0100000000", "0400000001", "0499999998"]
